@@ -411,6 +411,77 @@ pub fn hist_frames<F: Fam>(tier: &str, seed: u64) -> Vec<Vec<u8>> {
         .collect()
 }
 
+/// FULL one-dimensional sweeps: every list count 0..=4100 (reason-code lists) / 0..=700 (filters, user
+/// properties) and every length 0..=8300 of one field, nothing sampled: a chunked writer or a stack buffer
+/// has its edge at an arbitrary count or length (64, 1500, 4096, …) that no list of "interesting" values
+/// anticipates.  encode vs encode_len vs fixed header, encode_async into an all-accepting sink, decode back.
+pub fn full_1d_sweeps(rep: &mut Report, roundtrip: bool) {
+    use mqtt_proto::{v3, v5, Pid, QoS, QosPid, TopicFilter, TopicName};
+    use std::convert::TryFrom;
+    use std::sync::Arc;
+    fn one<F: Fam>(rep: &mut Report, p: &F::P, what: impl Fn() -> String, roundtrip: bool) {
+        rep.cases += 1;
+        let r = catch_unwind(AssertUnwindSafe(|| (F::encode(p), F::encode_len(p))));
+        match r {
+            Ok((Ok(e), Ok(l))) => {
+                if !(e.len() == l && matches!(frame_extent(&e), Some((h, rl)) if h + rl == e.len())) {
+                    rep.fail("sweep-len", what(), format!("encode wrote {} bytes, encode_len says {}, fixed header says {:?}", e.len(), l, frame_extent(&e)));
+                    return;
+                }
+                match catch_unwind(AssertUnwindSafe(|| F::encode_async(p, vec![]))) {
+                    Ok((Ok(()), w)) if w == e => {}
+                    Ok((r, w)) => rep.fail("sweep-encode-async", what(), format!("encode_async gave {:?} and wrote {} bytes; encode() wrote {}", r.map_err(|e| e.text), w.len(), e.len())),
+                    Err(_) => rep.fail("encode-panic", what(), "encode_async panicked".into()),
+                }
+                if roundtrip {
+                    match F::decode(&e) {
+                        Ok(Some(q)) if &q == p => {}
+                        other => rep.fail("sweep-roundtrip", what(), format!("decode of the encoding gave {:?}", other.map(|o| o.map(|_| "a different packet")).map_err(|e| e.text))),
+                    }
+                }
+            }
+            Ok((a, b)) => rep.fail("sweep-len", what(), format!("encode gave {:?}, encode_len gave {:?}", a.map(|e| e.len()).map_err(|e| e.text), b.map_err(|e| e.text))),
+            Err(_) => rep.fail("encode-panic", what(), "the real code panicked".into()),
+        }
+    }
+    let pid = Pid::try_from(77).unwrap();
+    for n in 0..=4100usize {
+        let p = v5::Packet::Suback(v5::Suback { pid, properties: Default::default(), topics: (0..n).map(|i| if i % 5 == 0 { v5::SubscribeReasonCode::NotAuthorized } else { v5::SubscribeReasonCode::GrantedQoS1 }).collect() });
+        one::<V5>(rep, &p, || format!("v5 SUBACK with {} reason codes", n), roundtrip);
+        let p = v5::Packet::Unsuback(v5::Unsuback { pid, properties: Default::default(), topics: (0..n).map(|_| v5::UnsubscribeReasonCode::Success).collect() });
+        one::<V5>(rep, &p, || format!("v5 UNSUBACK with {} reason codes", n), roundtrip);
+        let p = v3::Packet::Suback(v3::Suback { pid, topics: (0..n).map(|i| if i % 7 == 0 { v3::SubscribeReturnCode::Failure } else { v3::SubscribeReturnCode::MaxLevel2 }).collect() });
+        one::<V3>(rep, &p, || format!("v3 SUBACK with {} return codes", n), roundtrip);
+    }
+    let f = TopicFilter::try_from("a/+".to_string()).unwrap();
+    let up = v5::UserProperty { name: Arc::new("k".into()), value: Arc::new("v".into()) };
+    for n in 1..=700usize {
+        let p = v5::Packet::Subscribe(v5::Subscribe { pid, properties: Default::default(), topics: (0..n).map(|_| (f.clone(), v5::SubscriptionOptions::new(QoS::Level1))).collect() });
+        one::<V5>(rep, &p, || format!("v5 SUBSCRIBE with {} filters", n), roundtrip);
+        let p = v5::Packet::Unsubscribe(v5::Unsubscribe { pid, properties: Default::default(), topics: (0..n).map(|_| f.clone()).collect() });
+        one::<V5>(rep, &p, || format!("v5 UNSUBSCRIBE with {} filters", n), roundtrip);
+        let p = v3::Packet::Subscribe(v3::Subscribe { pid, topics: (0..n).map(|_| (f.clone(), QoS::Level0)).collect() });
+        one::<V3>(rep, &p, || format!("v3 SUBSCRIBE with {} filters", n), roundtrip);
+        let p = v3::Packet::Unsubscribe(v3::Unsubscribe { pid, topics: (0..n).map(|_| f.clone()).collect() });
+        one::<V3>(rep, &p, || format!("v3 UNSUBSCRIBE with {} filters", n), roundtrip);
+        let p = v5::Packet::Pubcomp(v5::Pubcomp { pid, reason_code: v5::PubcompReasonCode::Success, properties: v5::PubcompProperties { reason_string: None, user_properties: vec![up.clone(); n] } });
+        one::<V5>(rep, &p, || format!("v5 PUBCOMP with {} user properties", n), roundtrip);
+    }
+    let t1 = TopicName::try_from("t".to_string()).unwrap();
+    for n in 0..=8300usize {
+        let p = v3::Packet::Publish(v3::Publish { dup: false, retain: false, qos_pid: QosPid::Level0, topic_name: t1.clone(), payload: vec![0x41u8; n].into() });
+        one::<V3>(rep, &p, || format!("v3 PUBLISH with a {}-byte payload", n), roundtrip);
+        let p = v5::Packet::Publish(v5::Publish { dup: false, retain: false, qos_pid: QosPid::Level1(pid), topic_name: t1.clone(), payload: vec![0x41u8; n].into(), properties: v5::PublishProperties { payload_is_utf8: Some(true), ..Default::default() } });
+        one::<V5>(rep, &p, || format!("v5 PUBLISH (text) with a {}-byte payload", n), roundtrip);
+        if n > 0 && n <= 4200 {
+            let p = v3::Packet::Publish(v3::Publish { dup: false, retain: false, qos_pid: QosPid::Level2(pid), topic_name: TopicName::try_from("t".repeat(n)).unwrap(), payload: vec![1u8, 2].into() });
+            one::<V3>(rep, &p, || format!("v3 PUBLISH with a {}-byte topic", n), roundtrip);
+            let p = v5::Packet::Disconnect(v5::Disconnect { reason_code: v5::DisconnectReasonCode::NormalDisconnect, properties: v5::DisconnectProperties { reason_string: Some(Arc::new("r".repeat(n))), ..Default::default() } });
+            one::<V5>(rep, &p, || format!("v5 DISCONNECT with a {}-byte reason string", n), roundtrip);
+        }
+    }
+}
+
 /// FULL two-dimensional sweeps of the lengths of two adjacent fields, 0..=200 × 0..=200 (a stack buffer or a
 /// fast path sized from two fields at once has its edge at an arbitrary pair such as (42, 82)): encode vs
 /// encode_len vs header, and decode back.
